@@ -128,10 +128,20 @@ Definition obnd {A B} (x : option A) (f : A -> option B) : option B :=
   match x with Some a => f a | None => None end.
 
 (* ---- NewXMLStreamReader / NewJSONStreamReader: root: CreateXMLNode(DocumentNode, "", ...) --------- *)
-Definition reader_init (caching : bool) (choose : st -> choice) (m : mach) (fs : fspec) : option rd :=
-  match do_op caching m (OCreate (choose (m_s m)) (N_of_ntype DocumentNode) [] fs) with
+Definition tree_init (caching : bool) (choose : st -> choice) (m : mach)
+           (ty : ntype) (data : bytes) (fs : fspec) : option rd :=
+  match do_op caching m (OCreate (choose (m_s m)) (N_of_ntype ty) data fs) with
   | Some (m1, Some n) => Some (mkRd m1 (m_F m) [(n, [])] None)
   | _ => None
+  end.
+Definition reader_init (caching : bool) (choose : st -> choice) (m : mach) (fs : fspec) : option rd :=
+  tree_init caching choose m DocumentNode [] fs.
+
+(* the node that was closed last: the last child of cur, or the closed root *)
+Definition last_closed (r : rd) : option atree :=
+  match r_stack r with
+  | [] => r_done r
+  | (_, ks) :: _ => match rev ks with k :: _ => Some k | [] => None end
   end.
 
 (* ---- the closing decision of wrapUpCurAndTargetCheck, as Stream.wrap_up takes it ------------------- *)
